@@ -17,6 +17,7 @@ chose is enough (the loop terminates for every input), so the `none` of exhauste
 namespace MimicProofs.ParsersCode
 open Mimic.Py Mimic.Extracted.ParsersCode MimicProofs.Types
 open Mimic.Params (PType PVal readTypes readValues readValue readParams parseQuery)
+open Mimic.Packets (readConnectAttrs connectAttrs HsParse HsResp parseHandshakeResponse optNul)
 
 /-! ### `read_str_null` -/
 
@@ -646,6 +647,208 @@ theorem connect_attrs_loop_terminates {S : Type} [DecidableEq S] (E : Env S) (cs
                 exact ih r7.length (by omega) r7 rfl _ _ fuel (by omega)
       · have ht' : ¬ (0 < total) := ht
         simp [ht']
+
+/-! ### `_read_connect_attrs` and `parse_handshake_response` against `Mimic.Packets` -/
+
+/-- the translated loop computes the model's pair list, folded into the dict it started with -/
+theorem connect_attrs_loop (E : Env Bytes) (cs : Nat) (n : Nat) :
+    ∀ (r : Bytes), r.length = n → ∀ (d : List (Bytes × Bytes)) (total : Int) (fuel : Nat), n < fuel →
+      ∃ t' : Int, Mimic.Py.loopM fuel (d, total, r) (read_connect_attrs_loop1 E cs) =
+        match readConnectAttrs (E.decode cs) fuel total r with
+        | none => some none
+        | some (l, r') => some (some (Step.brk (l.foldl (fun d kv => Mimic.Py.dictSet d kv.1 kv.2) d, t', r'))) := by
+  induction n using Nat.strongRecOn with
+  | _ n ih =>
+    intro r hn d total fuel hf
+    cases fuel with
+    | zero => omega
+    | succ fuel =>
+      simp only [Mimic.Py.loopM, read_connect_attrs_loop1, read_str_len_eq, readConnectAttrs]
+      by_cases ht : total > 0
+      · have ht' : total > Int.ofNat 0 := ht
+        simp only [ht, ht', decide_true, if_true]
+        cases hk : Mimic.Wire.decStr r with
+        | none => exact ⟨0, by simp⟩
+        | some p =>
+          obtain ⟨k, r5⟩ := p
+          simp only
+          cases hv : Mimic.Wire.decStr r5 with
+          | none => exact ⟨0, by simp⟩
+          | some q =>
+            obtain ⟨v, r7⟩ := q
+            simp only
+            have l1 := Mimic.Packets.decStr_shorter r k r5 hk
+            have l2 := Mimic.Packets.decStr_shorter r5 v r7 hv
+            cases hdk : E.decode cs k with
+            | none => exact ⟨0, by simp⟩
+            | some tk =>
+              cases hdv : E.decode cs v with
+              | none => exact ⟨0, by simp⟩
+              | some tv =>
+                simp only
+                obtain ⟨t', ht'⟩ := ih r7.length (by omega) r7 rfl (Mimic.Py.dictSet d tk tv)
+                  (total - Int.ofNat ((Mimic.Extracted.Types.str_len k ++ Mimic.Extracted.Types.str_len v).length)) fuel (by omega)
+                refine ⟨t', ?_⟩
+                rw [ht']
+                simp only [str_len_eq, List.length_append]
+                have hcast : (total - Int.ofNat ((Mimic.Wire.encStr k).length + (Mimic.Wire.encStr v).length))
+                    = (total - (((Mimic.Wire.encStr k).length + (Mimic.Wire.encStr v).length : Nat) : Int)) := rfl
+                rw [hcast]
+                cases readConnectAttrs (E.decode cs) fuel (total - (((Mimic.Wire.encStr k).length + (Mimic.Wire.encStr v).length : Nat) : Int)) r7 with
+                | none => simp
+                | some w => obtain ⟨l, r'⟩ := w; simp
+      · have ht' : ¬ (total > Int.ofNat 0) := ht
+        exact ⟨total, by simp [ht, ht']⟩
+
+/-- **`_read_connect_attrs` is the model's `connectAttrs`** (the `while` loop, Python dict semantics included) -/
+theorem read_connect_attrs_eq (E : Env Bytes) (cs : Nat) (r : Bytes) :
+    read_connect_attrs E r cs = connectAttrs (E.decode cs) r := by
+  unfold read_connect_attrs connectAttrs
+  simp only [read_uint_len_eq]
+  cases hd : Mimic.Wire.decLen r with
+  | none => rfl
+  | some p =>
+    obtain ⟨total, rest⟩ := p
+    simp only
+    obtain ⟨t', ht'⟩ := connect_attrs_loop E cs rest.length rest rfl [] (Int.ofNat total) (rest.length + 1) (by omega)
+    rw [ht']
+    have hc : (Int.ofNat total) = (total : Int) := rfl
+    rw [hc]
+    cases readConnectAttrs (E.decode cs) (rest.length + 1) (total : Int) rest with
+    | none => rfl
+    | some w => obtain ⟨l, r'⟩ := w; simp [Mimic.Py.dictOf]
+
+
+def toHs (x : Option (Sum (HandshakeResponse41 Bytes) (SSLRequest Bytes))) : HsParse :=
+  match x with
+  | none => .error
+  | some (.inr s) => .ssl s.capabilities s.max_packet_size s.client_charset
+  | some (.inl h) => .resp { caps := h.capabilities, maxPacket := h.max_packet_size, charset := h.client_charset, username := h.username,
+                             auth := h.auth_response, db := h.database, plugin := h.client_plugin, attrs := h.connect_attrs,
+                             zstd := h.zstd_compression_level }
+
+theorem readN_small (k : Nat) (r : Bytes) (h : k < 2 ^ 63) : Mimic.Py.readN k r = some (r.take k, r.drop k) := by
+  simp [Mimic.Py.readN, h]
+
+theorem peek_empty (r : Bytes) : (!(!(Mimic.Py.peek1 r).isEmpty)) = r.isEmpty := by
+  cases r <;> simp [Mimic.Py.peek1]
+
+theorem has21 (n : Nat) : Mimic.Packets.has n Mimic.Packets.LENENC_CLIENT_DATA = Mimic.Py.hasBit n 21 := by
+  simp only [Mimic.Packets.has, Mimic.Py.hasBit, Mimic.Packets.LENENC_CLIENT_DATA]
+  rfl
+theorem has3 (n : Nat) : Mimic.Packets.has n Mimic.Packets.CONNECT_WITH_DB = Mimic.Py.hasBit n 3 := by
+  simp only [Mimic.Packets.has, Mimic.Py.hasBit, Mimic.Packets.CONNECT_WITH_DB]
+  rfl
+theorem has19 (n : Nat) : Mimic.Packets.has n Mimic.Packets.PLUGIN_AUTH = Mimic.Py.hasBit n 19 := by
+  simp only [Mimic.Packets.has, Mimic.Py.hasBit, Mimic.Packets.PLUGIN_AUTH]
+  rfl
+theorem has20 (n : Nat) : Mimic.Packets.has n Mimic.Packets.CONNECT_ATTRS = Mimic.Py.hasBit n 20 := by
+  simp only [Mimic.Packets.has, Mimic.Py.hasBit, Mimic.Packets.CONNECT_ATTRS]
+  rfl
+theorem has26 (n : Nat) : Mimic.Packets.has n Mimic.Packets.ZSTD = Mimic.Py.hasBit n 26 := by
+  simp only [Mimic.Packets.has, Mimic.Py.hasBit, Mimic.Packets.ZSTD]
+  rfl
+theorem land_eq (a b : Nat) : a.land b = a &&& b := by
+  show Nat.land a b = Nat.land a b
+  rfl
+
+set_option hygiene false in
+macro "hs_zstd" b:ident : tactic => `(tactic| (
+  by_cases h26 : Mimic.Py.hasBit (caps &&& ccaps) 26
+  · simp only [h26, if_true]; cases $b:ident <;> simp [toHs]
+  · simp [h26, toHs]))
+
+set_option hygiene false in
+macro "hs_attrs" b:ident : tactic => `(tactic| (
+  by_cases h20 : Mimic.Py.hasBit (caps &&& ccaps) 20
+  · simp only [h20, if_true]
+    cases hca : Mimic.Packets.connectAttrs (E.decode cs) $b:ident with
+    | none => simp [toHs]
+    | some pa =>
+      obtain ⟨attrs, b8⟩ := pa
+      try dsimp only
+      hs_zstd b8
+  · simp only [h20, Bool.false_eq_true, if_false]
+    try dsimp only
+    hs_zstd $b:ident))
+
+set_option hygiene false in
+macro "hs_plugin" b:ident : tactic => `(tactic| (
+  by_cases h19 : Mimic.Py.hasBit (caps &&& ccaps) 19
+  · simp only [h19, if_true]
+    cases hpl : E.decode cs (Mimic.Wire.readNul $b:ident).fst with
+    | none => simp [toHs]
+    | some pl =>
+      simp only [Option.map_some]
+      try dsimp only
+      generalize (Mimic.Wire.readNul $b:ident).snd = b7
+      hs_attrs b7
+  · simp only [h19, Bool.false_eq_true, if_false]
+    try dsimp only
+    hs_attrs $b:ident))
+
+set_option hygiene false in
+macro "hs_db" b:ident : tactic => `(tactic| (
+  by_cases h3 : Mimic.Py.hasBit (caps &&& ccaps) 3
+  · simp only [h3, if_true]
+    cases hdb : E.decode cs (Mimic.Wire.readNul $b:ident).fst with
+    | none => simp [toHs]
+    | some db =>
+      simp only [Option.map_some]
+      try dsimp only
+      generalize (Mimic.Wire.readNul $b:ident).snd = b6
+      hs_plugin b6
+  · simp only [h3, Bool.false_eq_true, if_false]
+    try dsimp only
+    hs_plugin $b:ident))
+
+theorem parse_handshake_response_eq (E : Env Bytes) (caps : Nat) (data : Bytes) :
+    toHs (parse_handshake_response E caps data) = parseHandshakeResponse caps E.collation E.decode data := by
+  unfold parse_handshake_response parseHandshakeResponse
+  simp only [read_uint_4_eq, read_uint_1_eq, readUInt_one, read_str_null_eq, read_str_len_eq, read_connect_attrs_eq,
+    Mimic.Extracted.Types.read_str_fixed, peek_empty]
+  cases h1 : Mimic.Wire.readUInt 4 data with
+  | none => rfl
+  | some p1 =>
+    obtain ⟨ccaps, b1⟩ := p1
+    simp only
+    cases h2 : Mimic.Wire.readUInt 4 b1 with
+    | none => rfl
+    | some p2 =>
+      obtain ⟨maxp, b2⟩ := p2
+      simp only
+      cases b2 with
+      | nil => rfl
+      | cons coll b3 =>
+        simp only
+        cases hc : E.collation coll.toNat with
+        | none => rfl
+        | some cs =>
+          simp only [readN_small 23 b3 (by decide), has21, has3, has19, has20, has26, land_eq, optNul]
+          by_cases hemp : (List.drop 23 b3).isEmpty
+          · simp [hemp, toHs]
+          · simp only [hemp, Bool.false_eq_true, if_false]
+            cases hu : E.decode cs (Mimic.Wire.readNul (List.drop 23 b3)).fst with
+            | none => rfl
+            | some user =>
+              simp only
+              by_cases h21 : hasBit (caps &&& ccaps) 21
+              · simp only [h21, if_true]
+                cases hd : Mimic.Wire.decStr (Mimic.Wire.readNul (List.drop 23 b3)).snd with
+                | none => rfl
+                | some pa =>
+                  obtain ⟨auth, b5⟩ := pa
+                  simp only
+                  hs_db b5
+              · simp only [h21, Bool.false_eq_true, if_false]
+                cases hs : (Mimic.Wire.readNul (List.drop 23 b3)).snd with
+                | nil => rfl
+                | cons l r =>
+                  have hl : l.toNat < 2 ^ 63 := Nat.lt_trans l.toNat_lt (by decide)
+                  simp only [readN_small l.toNat r hl]
+                  generalize List.take l.toNat r = auth
+                  generalize List.drop l.toNat r = b5
+                  hs_db b5
 
 /-- a concrete environment for the non-vacuity examples: ASCII codec, every collation id is its own character set -/
 def asciiEnv : Env (List Char) where
